@@ -1420,6 +1420,10 @@ Definition assignment (P : dcop) (cf : config st msg) : asg :=
 (* the cost of an assignment, every constraint counted at the node that keeps it *)
 Definition total_cost (P : dcop) (a : asg) : Z := cost_in P (tree_ids P) a.
 
+Theorem inv_all_schedules P dep B : dvalid P dep B -> forall sched,
+  Inv P dep B (fst (run (dpop_proto P) sched)).
+Proof. intros V sched. exact (proj1 (run_inv P dep B V sched)). Qed.
+
 Theorem no_raise_all_schedules P sched : dpop_valid P ->
   forall n k, In (EvRaise n k) (snd (run (dpop_proto P) sched)) -> ~ In n (tree_ids P).
 Proof.
